@@ -91,6 +91,9 @@ def call(eng, st, canon, node, guard):
             st.pc.append(z3.ForAll([j], z3.Implies(z3.And(0 <= j, j < n), z3.Select(arr, j) >= m)))
         st.pc.append(z3.And(0 <= k, k < n, z3.Select(arr, k) == m))
         return m
+    if canon in ("numpy.count_nonzero", "numpy.sum") and eng.as_vec(st, args[0]) is not None \
+            and not isinstance(args[0], Ref):
+        canon = "numpy.count_nonzero"       # the sum of a boolean vector is its number of true entries
     if canon == "numpy.count_nonzero":
         USED.add("numpy.count_nonzero = number of true entries")
         v = eng.as_vec(st, args[0])
